@@ -13,7 +13,7 @@ from harness.lib import Family, Verdict, call, deep_eq, drive, jval, strip_exc
 RULE = ("cases are drawn from random.Random(VERIF_SEED): shapes of order 1..4 (5 in thorough) with extents 1..4, "
         "index vectors with negative, boundary and out-of-range entries, every (N, M, dims|exclude_dims) "
         "combination for N<=3 (4 in thorough) valid and invalid, integer row matrices with repeated rows / "
-        "empty operands, matrix tuples with equal and unequal column counts; plus two enumerated (not sampled) "
+        "empty operands (0 x ncols, and enumerated: 1-d empty int / float, 0x0, 0xk of another width, 1x0, 0xkx1 on either side or both), matrix tuples with equal and unequal column counts; plus two enumerated (not sampled) "
         "streams: (a) shapes whose size is next to 2^31, 2^32, 2^53, 2^62 and 2^63-1 (one to 31 modes, with "
         "singleton modes) with subscripts / linear indices at the extremes, at the stride boundaries, negative, "
         "just out of range, round trips on indices sampled from the whole range, and index / subscript arrays of "
@@ -408,6 +408,8 @@ def _rows(rng, ncols, nmax, vmax, dup_share, vmin=0):
 
 
 ROW_OPS = ("ismember", "intersect", "setdiff", "union")
+#: forms in which "no rows" is handed over besides the 0 x ncols matrix
+EMPTY_FORMS = ("1d", "1df", "0x0", "0xk+", "0xk-", "1x0", "0xkx1")
 
 
 def row_profiles():
@@ -532,16 +534,52 @@ class Rows(Family):
         out += pattern_row_cases(tier)
         for _ in range(150 if tier == "quick" else 3000):
             out.append(random_wide_rows(rng))
+        # enumerated: "no rows" handed over in every form a caller (and the module itself) uses for it - a 1-d empty
+        # array (integer and numpy's default float), 0 x 0, 0 x k with another width, 1 x 0, 0 x k x 1 - on either
+        # side or both, against operands with and without repeated rows
+        for _ in range(1 if tier == "quick" else 6):
+            for k in ROW_OPS:
+                for form in EMPTY_FORMS:
+                    for side in ("A", "B", "AB"):
+                        if k == "ismember" and form == "1x0" and "A" in side:
+                            continue  # a 1 x 0 search matrix HAS one (empty) row: not "no rows"
+                        ncols = rng.randint(1, 3)
+                        vmin = rng.choice([0, 0, -2])
+                        other = []
+                        while not other:
+                            other = _rows(rng, ncols, 6, rng.choice([1, 2, 3]), 0.5, vmin)
+                        c = {"k": k, "A": other, "B": other, "ncols": ncols}
+                        for x in side:
+                            c[x] = []
+                            c["e" + x] = form
+                        out.append(c)
         return out
 
     @staticmethod
-    def _arr(rows, ncols):
+    def _arr(rows, ncols, form=None):
+        if not rows and form:
+            if form == "1d":
+                return np.array([], dtype=np.int64)
+            if form == "1df":
+                return np.array([])
+            if form == "0x0":
+                return np.empty((0, 0), dtype=np.int64)
+            if form == "0xk+":
+                return np.empty((0, ncols + 1), dtype=np.int64)
+            if form == "0xk-":
+                return np.empty((0, max(ncols - 1, 0)), dtype=np.int64)
+            if form == "1x0":
+                return np.empty((1, 0), dtype=np.int64)
+            if form == "0xkx1":
+                return np.empty((0, ncols, 1), dtype=np.int64)
+            raise ValueError(form)
         return np.array(rows, dtype=np.int64).reshape(len(rows), ncols)
 
     def evaluate(self, cases):
         impls, reqs = [], []
         for c in cases:
-            A, B = self._arr(c["A"], c["ncols"]), self._arr(c["B"], c["ncols"])
+            A, B = self._arr(c["A"], c["ncols"], c.get("eA")), self._arr(c["B"], c["ncols"], c.get("eB"))
+            foreign = bool((not c["A"] and c.get("eA")) or (not c["B"] and c.get("eB")))
             if c["k"] == "ismember":
                 def f(A=A, B=B):
                     m, loc = U.tt_ismember_rows(A, B)
@@ -558,6 +596,8 @@ class Rows(Family):
                 def un(A=A, B=B):
                     # no cast: the union of integer matrices must be an integer matrix (also with an empty operand)
                     u = np.asarray(U.tt_union_rows(A, B))
+                    if foreign and u.size == 0:
+                        return []  # no rows on both sides: any array without an entry stands for "no rows"
                     if not np.issubdtype(u.dtype, np.integer):
                         return {"dtype": str(u.dtype), "rows": jval(u)}
                     return jval(u)
@@ -575,6 +615,7 @@ class Rows(Family):
                     "neg" if neg else "nonneg", "w>=5" if c["ncols"] >= 5 else "w<5",
                     "big>=2^53" if big >= 2 ** 53 else ("big>=2^31" if big >= 2 ** 31 else "small"),
                     "box>=2^63" if span_product(A + B, c["ncols"]) >= 2 ** 63 else "box<2^63"]
+            tags += [f"empty{x}-as-{c['e' + x]}" for x in "AB" if not c[x] and c.get("e" + x)]
             tags = [t for t in tags if t]
             # the set-algebra specification, computed independently here on tuples of Python ints
             spec = None
